@@ -577,4 +577,103 @@ theorem ols_auto_time_scale (op : OptPts) (c : Rat) (t : List Pt) (dt : Rat) :
     simp only [ols_time_scale]
     cases olsEstimate t dt (k.1 : Int) <;> rfl
 
+
+/-- a track without missing frames has the lags `1 … N − 1`: the track length `ensemble_ols` derives from the curve
+    (`lags + 1`) is its number of points. -/
+theorem contiguous_full (t : List Pt) (h : Contiguous t) (hn : 1 ≤ t.length) :
+    (msdCounts t none).length + 1 = t.length := by
+  unfold msdCounts lagsOf
+  rw [List.length_map, pySliceOpt_none, lagsAll_contiguous t h]
+  simp; omega
+
+example : Contiguous [(4, 0), (5, 1), (6, 3), (7, 2), (8, 5)] := ⟨4, by decide⟩
+
+/-- **ensemble_identical_auto.** `max_lag=None` on both sides: for a track with at least 5 points whose MSD curve has
+    `N − 1` lags (no missing frames: `contiguous_full` below) the ensemble of `k ≥ 2` identical copies goes through
+    `_determine_optimal_points_ensemble` on the ensemble curve with `lags + 1` for the track length, the single track through
+    `determine_optimal_points` with its cache — and both arrive at the same number of lags, the same diffusion constant and
+    the same localisation variance (or the same error).  For every `optimal_points` function that answers at least 2. -/
+theorem ensemble_identical_auto (op : OptPts) (hop : AtLeastTwo op) (t : List Pt) (dt : Rat) (k : Nat) (hk : 2 ≤ k)
+    (h5 : 5 ≤ t.length) (hfull : (msdCounts t none).length + 1 = t.length) :
+    (ensembleOlsAuto op (List.replicate k t) dt).map (fun r => (r.1.value, r.1.lv, r.2)) =
+      (olsAuto op t dt).map (fun r => (r.1.value, r.1.lv, r.2)) := by
+  have hne : msdCounts t none ≠ [] := by
+    intro h; rw [h] at hfull; simp at hfull; omega
+  have h4 : ¬ t.length ≤ 4 := by omega
+  have hpts : ((msdCounts t none).map fun r => (⟨r.lag, ⟨r.msd, 0, k * r.count, k⟩⟩ : EnsRow)).map
+      (fun r => ((r.lag : Rat), r.st.mean)) = ptsOf (msdCounts t none) := by
+    simp only [ptsOf, List.map_map, Function.comp_def]
+  unfold ensembleOlsAuto olsAuto
+  rw [ensemble_identical_msd t none k hk 2 (by exact_mod_cast hk) hne]
+  simp only [hpts, List.length_map, hfull]
+  unfold detOptEns
+  have hspec := optLoopEns_eq_spec op t h4 100 (max 2 (t.length / 10), max 2 (t.length / 10)) []
+  simp only at hspec
+  rw [hspec, ← optimal_points_cache]
+  cases hd : detOpt op t with
+  | error e => rfl
+  | ok kk =>
+    have h2 : 2 ≤ kk.1 := by
+      rw [optimal_points_cache] at hd
+      exact optSpec_ge_two op hop t _ _ _ _ (Nat.le_max_left _ _) hd
+    simp only [Except.map]
+    unfold olsEstimate
+    rw [if_neg (by omega)]
+    have hv := olsFromRows_value (msdCounts t (some (kk.1 : Int))) 
+      ((((msdCounts t none).map fun r => (⟨r.lag, ⟨r.msd, 0, k * r.count, k⟩⟩ : EnsRow)).take kk.1).map
+        fun r => (⟨r.lag, r.st.mean, 0⟩ : MsdRow)) t.length t.length dt 1
+      (mean (((msdCounts t none).map fun r => (⟨r.lag, ⟨r.msd, 0, k * r.count, k⟩⟩ : EnsRow)).map (·.st.ess))) true false
+      (by simp only [ptsOf, msdCounts_some_eq_take, ← List.map_take, List.map_map, Function.comp_def])
+    generalize olsFromRows (msdCounts t (some (kk.1 : Int))) t.length dt true 1 = x at hv ⊢
+    generalize olsFromRows _ t.length dt false _ = y at hv ⊢
+    cases x <;> cases y <;> simp_all [Except.map]
+
+example : AtLeastTwo optimalPointsF ∧ (2 : Nat) ≤ 3 ∧ 5 ≤ [((4 : Int), (0 : Rat)), (5, 1), (6, 3), (7, 2), (8, 5)].length ∧
+    (msdCounts [(4, 0), (5, 1), (6, 3), (7, 2), (8, 5)] none).length + 1 = [((4 : Int), (0 : Rat)), (5, 1), (6, 3), (7, 2), (8, 5)].length :=
+  ⟨optimalPointsF_atLeastTwo, by decide, by decide, by decide +kernel⟩
+
+/-- the hypothesis is needed: with a missing frame (5 points on frames 0,1,2,3,5: 5 lags, `lags + 1 = 6`) an
+    `optimal_points` that depends on the track length (here: half of it) gives 2 lags for the track but 3 for the ensemble
+    of two copies of it (kernel-checked). -/
+example :
+    (olsAuto (fun _ n => .ok (n / 2, 2)) [(0, 0), (1, 1), (2, 3), (3, 2), (5, 5)] 1).map (·.2) = .ok 2 ∧
+    (ensembleOlsAuto (fun _ n => .ok (n / 2, 2)) (List.replicate 2 [(0, 0), (1, 1), (2, 3), (3, 2), (5, 5)]) 1).map (·.2)
+      = .ok 3 := by
+  constructor <;> decide +kernel
+
+
+/-! ## GLS: one step of the fixed-point iteration -/
+
+/-- **gls_normal_equations.** One step of the GLS iteration returns the line that solves the weighted normal equations
+    `Σ W[r,c]·res_c = 0`, `Σ (r+1)·W[r,c]·res_c = 0` for the given inverse covariance matrix `W` (symmetric, as the inverse of
+    the symmetric matrix `_msd_diffusion_covariance` returns: `covEntry_symm`) — the generalised least-squares line. -/
+theorem gls_normal_equations (W : List (List Rat)) (msd : List Rat) (a b : Rat)
+    (hden : glsKappa W * glsMu W - glsLam W * glsLam W ≠ 0) (hsym : glsLamT W = glsLam W) :
+    glsRes W msd (glsUpdate W msd a b).intercept (glsUpdate W msd a b).slope = 0 ∧
+    glsResLag W msd (glsUpdate W msd a b).intercept (glsUpdate W msd a b).slope = 0 := by
+  rw [glsRes_eq, glsResLag_eq, hsym]
+  simp only [glsUpdate]
+  generalize glsKappa W = k at *
+  generalize glsLam W = l at *
+  generalize glsMu W = m at *
+  generalize glsNu W msd = n
+  generalize glsXi W msd = x
+  have e (p : Rat) : p * (1 / (k * m - l * l)) = p / (k * m - l * l) := by ring
+  rw [e, e]
+  constructor
+  · rw [sub_sub, sub_eq_zero, div_mul_eq_mul_div, div_mul_eq_mul_div, ← add_div, eq_div_iff hden]; ring
+  · rw [sub_sub, sub_eq_zero, div_mul_eq_mul_div, div_mul_eq_mul_div, ← add_div, eq_div_iff hden]; ring
+
+theorem covEntry_symm (n a b : Rat) (i j : Nat) : covEntry n a b i j = covEntry n a b j i := by
+  simp only [covEntry, Nat.min_comm j i, add_comm (j : Rat) (i : Rat), mul_comm (n - (j : Rat) + 1), eq_comm (a := j) (b := i)]
+  have e1 : n + 1 - (i : Rat) - j = n + 1 - j - i := by ring
+  have e2 : n - (i : Rat) - j + 1 = n - j - i + 1 := by ring
+  have e3 : 3 * (i : Rat) * j = 3 * j * i := by ring
+  rw [e1, e2, e3]
+
+example : glsKappa [[2, 1], [1, 3]] * glsMu [[2, 1], [1, 3]] - glsLam [[2, 1], [1, 3]] * glsLam [[2, 1], [1, 3]] ≠ 0 ∧
+    glsLamT [[2, 1], [1, 3]] = glsLam [[2, 1], [1, 3]] := by
+  constructor <;> decide +kernel
+
+
 end Verif.C09
